@@ -1082,13 +1082,23 @@ class Interp:
                     return lambda other: not any(self.contains(obj, v) for v in self.iterate(other))
                 if attr == "__class__":
                     return obj.cls
+                if attr.startswith("__") and attr.endswith("__"):
+                    return self._default_dunder(obj, attr)
                 raise PyRaise(BuiltinExcValue(EXC["AttributeError"], (attr,)))
             return self.bind(cv, obj, owner)
         if isinstance(obj, ClassInfo):
             cv, owner = obj.lookup(attr)
             if cv is MISSING:
-                if attr == "__name__":
+                if attr in ("__name__", "__qualname__"):
                     return obj.name
+                if attr == "__module__":
+                    return obj.module.name
+                if attr == "__doc__":
+                    return ast.get_docstring(obj.node) if obj.node is not None else None
+                if attr == "__mro__":
+                    return tuple(obj.mro)
+                if attr == "__bases__":
+                    return tuple(obj.bases)
                 raise AnalysisError(f"class attr {obj.name}.{attr}")
             if isinstance(cv, Func):
                 if cv.kind == "classmethod":
@@ -1125,7 +1135,26 @@ class Interp:
                         return _base_init
                     if attr in ("__post_init__", "__init_subclass__"):
                         return lambda *a, **k: None
+                    if isinstance(inst, AObj) and attr in ("__eq__", "__ne__", "__hash__", "__repr__", "__str__") and \
+                            c.name in ("object", "ABC", "Generic", "Protocol", "ABCMeta"):
+                        if attr == "__eq__":
+                            return lambda o: True if o is inst else NotImplemented       # object.__eq__
+                        if attr == "__hash__":
+                            return lambda: ("id", id(inst))                             # object.__hash__
+                        if attr == "__ne__":
+                            return lambda o: False if o is inst else NotImplemented
                     raise AnalysisError(f"super().{attr} resolves to the opaque base {c.name}")
+            if isinstance(inst, AObj) and attr in ("__eq__", "__ne__", "__hash__"):
+                # implicit base `object`
+                if attr == "__eq__":
+                    return lambda o: True if o is inst else NotImplemented
+                if attr == "__ne__":
+                    return lambda o: False if o is inst else NotImplemented
+                return lambda: ("id", id(inst))
+            if attr == "__init__":
+                return lambda *a, **k: None
+            if attr in ("__post_init__", "__init_subclass__"):
+                return lambda *a, **k: None
             raise PyRaise(BuiltinExcValue(EXC["AttributeError"], (attr,)))
         if isinstance(obj, Native):
             kind = "Pattern" if hasattr(obj.obj, "pattern") else "Match"
@@ -1179,6 +1208,46 @@ class Interp:
             if attr in ("__cause__", "__context__"):
                 return getattr(obj, "cause", None)
         raise AnalysisError(f"getattr {type(obj).__name__}.{attr}")
+
+    def _default_dunder(self, obj, attr):
+        """special methods / attributes every object has although the class body does not define them (object's or the dataclass-generated ones)"""
+        if attr == "__eq__":
+            def _eq(o):
+                if obj.cls.dc is not None and obj.cls.dc.get("eq", True):
+                    if isinstance(o, AObj) and o.cls is obj.cls:
+                        return self.py_eq(obj, o)
+                    return NotImplemented
+                return True if o is obj else NotImplemented
+            return _eq
+        if attr == "__ne__":
+            def _ne(o):
+                r, _ = obj.cls.lookup("__eq__")
+                res = self.call(Bound(r, obj), [o], {}) if r is not MISSING else self._default_dunder(obj, "__eq__")(o)
+                return NotImplemented if res is NotImplemented else not self.truth(res)
+            return _ne
+        if attr == "__hash__":
+            return lambda: self.py_hash(obj)
+        if attr == "__repr__":
+            return lambda: self.to_repr(obj)
+        if attr == "__str__":
+            return lambda: self.to_str(obj)
+        if attr == "__doc__":
+            return ast.get_docstring(obj.cls.node) if obj.cls.node is not None else None
+        if attr == "__module__":
+            return obj.cls.module.name
+        if attr == "__dataclass_fields__":
+            if obj.cls.dc is None:
+                raise PyRaise(BuiltinExcValue(EXC["AttributeError"], (attr,)))
+            return {f[0]: f for f in obj.cls.all_fields()}
+        if attr in ("__lt__", "__le__", "__gt__", "__ge__"):
+            if obj.cls.dc is not None and obj.cls.dc.get("order"):
+                t = {"__lt__": ast.Lt, "__le__": ast.LtE, "__gt__": ast.Gt, "__ge__": ast.GtE}[attr]
+                return lambda o: self.order(t, obj, o) if isinstance(o, AObj) and o.cls is obj.cls else NotImplemented
+            return lambda o: NotImplemented
+        if attr in ("__init_subclass__", "__post_init__", "__set_name__", "__getattr__", "__getitem__", "__iter__", "__len__", "__contains__",
+                    "__call__", "__enter__", "__exit__", "__bool__", "__and__", "__or__", "__invert__", "__rand__", "__ror__", "__add__", "__sub__"):
+            raise PyRaise(BuiltinExcValue(EXC["AttributeError"], (attr,)))       # genuinely absent unless the class defines them
+        raise AnalysisError(f"special attribute {obj.cls.name}.{attr} is not modelled")
 
     def classvar(self, cv, cls, attr, owner):
         if isinstance(cv, tuple) and cv and cv[0] == "classvar_lazy":
